@@ -30,13 +30,13 @@ const repoRoot = "/repo"
 const verifRoot = "/verif"
 
 type harnessFile struct {
-	Path    string // real path under /verif/harness
-	PkgDir  string // directory relative to module root
-	Module  string // module root relative to /repo ("." default)
-	PkgName string
-	Virtual string // overlay path under /repo
-	Dirs    []string // file-level directives
-	Entries []*entry
+	Path     string // real path under /verif/harness
+	PkgDir   string // directory relative to module root
+	Module   string // module root relative to /repo ("." default)
+	PkgName  string
+	Virtual  string   // overlay path under /repo
+	Dirs     []string // file-level directives
+	Entries  []*entry
 	Includes []string // model templates from /verif/harness/models
 }
 
@@ -487,8 +487,9 @@ func runEntry(prog *ssa.Program, byDir map[string]*ssa.Package, e *entry, tier s
 // ---------- native replay ----------
 
 type nativeCase struct {
-	Entry string                 `json:"entry"`
-	Table map[string]interface{} `json:"table"`
+	Entry  string                 `json:"entry"`
+	Table  map[string]interface{} `json:"table"`
+	Stress bool                   `json:"stress"` // thread cases: repeat under the Go scheduler when the recorded schedule does not fail
 }
 
 type nativeOutcome struct {
@@ -498,6 +499,7 @@ type nativeOutcome struct {
 	Obs     []string `json:"obs"`
 	Status  string   `json:"status"`
 	Panic   string   `json:"panic"`
+	Notes   []string `json:"notes,omitempty"`
 }
 
 // runNative executes cases of one harness package natively through `go test -overlay`.
@@ -548,15 +550,49 @@ func runNative(files []*harnessFile, pkgDir, module, tier string, engineReplaces
 		}
 	}
 	dir := filepath.Join(repoRoot, module, pkgDir)
+	rt := filepath.Join(tmp, "rt.go")
+	os.WriteFile(rt, rtSource(pkgName), 0644)
+	replace[filepath.Join(dir, "zz_verif_rt.go")] = rt
 	if module == "." {
-		rw, _ := rewriteForNative(tmp, dir, repoModule+"/"+pkgDir, engineReplaces)
+		// schedule replay: instrument the synchronisation operations of the harness package and of the packages
+		// named by verif:sched when a case carries a recorded schedule
+		var src map[string][]byte
+		var xImports, xAssigns []string
+		needSched := false
+		for _, c := range cases {
+			if _, ok := c.Table["sched:trace"]; ok {
+				needSched = true
+			}
+		}
+		if needSched {
+			pkgs := []string{repoModule + "/" + pkgDir}
+			for _, f := range files {
+				if f.PkgDir != pkgDir || f.Module != module {
+					continue
+				}
+				for _, d := range f.Dirs {
+					if strings.HasPrefix(d, "sched ") {
+						pkgs = append(pkgs, strings.TrimSpace(strings.TrimPrefix(d, "sched ")))
+					}
+				}
+			}
+			var extra map[string]string
+			var ierr error
+			src, extra, xImports, xAssigns, ierr = instrumentSched(tmp, filepath.Join(repoRoot, module), repoModule+"/"+pkgDir, dedupe(pkgs), replace)
+			if ierr != nil {
+				fmt.Fprintf(os.Stderr, "schedule instrumentation failed (replay falls back to stress repetition): %v\n", ierr)
+				src, xImports, xAssigns = nil, nil, nil
+			} else {
+				for k, v := range extra {
+					replace[k] = v
+				}
+			}
+		}
+		rw, _ := rewriteForNative(tmp, dir, repoModule+"/"+pkgDir, engineReplaces, src, xImports, xAssigns)
 		for k, v := range rw {
 			replace[k] = v
 		}
 	}
-	rt := filepath.Join(tmp, "rt.go")
-	os.WriteFile(rt, rtSource(pkgName), 0644)
-	replace[filepath.Join(dir, "zz_verif_rt.go")] = rt
 	var b strings.Builder
 	fmt.Fprintf(&b, "//go:build verif\n\npackage %s\n\nimport \"testing\"\n\nfunc TestVerifReplay(t *testing.T) {\n\tverifRunAll(map[string]func(){\n", pkgName)
 	for _, e := range entries {
@@ -699,8 +735,8 @@ func finish(prop, tier string, seed int, files []*harnessFile, results []*entryR
 		}
 		for k, ps := range groups {
 			var cases []nativeCase
-			for _, p := range ps {
-				cases = append(cases, nativeCase{Entry: p.cex.Entry, Table: p.cex.Table})
+			for i, p := range ps {
+				cases = append(cases, nativeCase{Entry: p.cex.Entry, Table: p.cex.Table, Stress: kinds[k][i] == "cex"})
 			}
 			outs, err := runNative(files, k.dir, k.mod, tier, grpRepl[k], cases)
 			if err != nil {
@@ -825,21 +861,21 @@ func finish(prop, tier string, seed int, files []*harnessFile, results []*entryR
 			"traces_validated_against_impl": witnessOK,
 			"witness_disagreements":         witnessBad,
 			"witness_mismatches_on_overapproximated_paths": witnessApprox,
-			"obligations":                   nObl,
-			"discharged":                    nDis,
-			"sat":                           nSat,
-			"unknown":                       nUnknown,
-			"samples":                       samples,
-			"counterexample_samples":        cexSamples,
-			"functions_encoded":             funcs,
-			"intrinsics":                    intr,
-			"stubs_and_replacements":        stubs,
-			"solver":                        solver,
-			"load_and_ssa_build_s":          loadS,
-			"inconclusive":                  inconclusive,
-			"known_findings_hit":            khKeys,
-			"exhaustive":                    len(inconclusive) == 0,
-			"explanation":                   "states = symbolic paths of the real code explored; transitions = SSA instructions executed symbolically; each obligation is an SMT query pc∧¬assertion decided by the solver for all values within the stated bounds",
+			"obligations":            nObl,
+			"discharged":             nDis,
+			"sat":                    nSat,
+			"unknown":                nUnknown,
+			"samples":                samples,
+			"counterexample_samples": cexSamples,
+			"functions_encoded":      funcs,
+			"intrinsics":             intr,
+			"stubs_and_replacements": stubs,
+			"solver":                 solver,
+			"load_and_ssa_build_s":   loadS,
+			"inconclusive":           inconclusive,
+			"known_findings_hit":     khKeys,
+			"exhaustive":             len(inconclusive) == 0,
+			"explanation":            "states = symbolic paths of the real code explored; transitions = SSA instructions executed symbolically; each obligation is an SMT query pc∧¬assertion decided by the solver for all values within the stated bounds",
 		},
 		"assumptions": assumptions,
 		"wall_s":      time.Since(t0).Seconds(),
@@ -885,7 +921,7 @@ func replayOnly(prop, tier string, files []*harnessFile, path string) int {
 	for _, f := range files {
 		for _, e := range f.Entries {
 			if e.Name == rec.Entry {
-				outs, err := runNative(files, f.PkgDir, f.Module, tier, entryReplaces(e), []nativeCase{{Entry: rec.Entry, Table: rec.Table}})
+				outs, err := runNative(files, f.PkgDir, f.Module, tier, entryReplaces(e), []nativeCase{{Entry: rec.Entry, Table: rec.Table, Stress: true}})
 				if err != nil {
 					fmt.Fprintln(os.Stderr, err)
 					return 2
